@@ -59,4 +59,40 @@ Section Stream.
         let* br := encode_stream cp r in
         Ok (b ++ br)
     end.
+
+  (* ---------- a writer that fails ---------- *)
+  (* Writer oracle: `None` = healthy; `Some k` = accepts k more bytes, then every write returns an
+     io::Error.  `write_all` / `write!` deliver the bytes in order, so what reaches the output is a
+     prefix of what was to be written, and `?` returns at the first error. *)
+  Definition budget : Type := option nat.
+  Definition accepts (b : budget) (n : nat) : bool := match b with None => true | Some k => Nat.leb n k end.
+  Definition spend (b : budget) (n : nat) : budget := match b with None => None | Some k => Some (k - n)%nat end.
+  Definition delivered (b : budget) (bs : list N) : list N := match b with None => bs | Some k => firstn k bs end.
+
+  (* one call of TTYEncoder::encode on a possibly failing writer:
+       (bytes that reached the output, Ok(()) or Err, encoder state afterwards, writer afterwards).
+     The SGR arms: `self.chunks.clear()`; pushes; write "ESC["; drain (writes the chunks, THEN clears --
+     only if every write succeeded); write "m".  An error before the drain has completed leaves the
+     chunks of this command in the scratch buffer. *)
+  Definition sgr_w (s : enc_state) (chunks_pushed : list (list N)) (b : budget) : list N * bool * enc_state * budget :=
+    let chunks := chunks_clear s ++ chunks_pushed in
+    let all := sgr_bytes chunks in
+    let upto_drain := length (CSI ++ join 59 chunks) in
+    (delivered b all, accepts b (length all),
+     if accepts b upto_drain then [] else chunks,
+     spend b (length all)).
+
+  Definition encode_stw (cp : caps) (s : enc_state) (c : cmd) (b : budget) : outcome (list N * bool * enc_state * budget) :=
+    match c with
+    | Face f => Ok (sgr_w s (face_chunks pal256 gray4 (cp_depth cp) f) b)
+    | FaceModify m =>
+        match chunks_clear s ++ fm_chunks pal256 gray4 (cp_depth cp) m with
+        | [] => Ok ([], true, [], b)                     (* nothing is written: cannot fail *)
+        | _ => Ok (sgr_w s (fm_chunks pal256 gray4 (cp_depth cp) m) b)
+        end
+    | _ =>
+        (* the other arms only write; they touch no encoder state *)
+        let* bs := encode pal256 gray4 cp c in
+        Ok (delivered b bs, accepts b (length bs), s, spend b (length bs))
+    end.
 End Stream.
